@@ -151,8 +151,9 @@ class KLpq(CallableModel):
         samples = kwargs.get('samples', self.samples)
         self.q.sample(samples)
         log_w = self.p() - _log_q(self.q, samples)
-        log_w_norm = log_w - torch.logsumexp(log_w, -1)
-        return torch.sum(log_w_norm.exp() * log_w)
+        # self-normalize over the last sample dimension, average over the others
+        log_w_norm = log_w - torch.logsumexp(log_w, -1, keepdim=True)
+        return torch.sum(log_w_norm.exp() * log_w, -1).mean()
 
     def handle_parameter_changed(self, variable, index, event):
         pass
